@@ -390,6 +390,15 @@ theorem belowCap_ok {cfg : ComCfg} {p : M Dec} (h : belowCap cfg p = .ok true) :
     simp [Except.map] at h
     exact h
 
+theorem admitIf_some {ok : M Bool} {p' q : Pending} (h : admitIf ok p' = .ok (some q)) : ok = .ok true ∧ q = p' := by
+  unfold admitIf at h
+  cases ok with
+  | error e => cases h
+  | ok b =>
+    cases b with
+    | false => simp [Except.map] at h
+    | true => simp [Except.map] at h; exact ⟨rfl, h.symm⟩
+
 theorem find_tokens_nonneg {env : StakeEnv} (he : envValid env = true) {v : String} {tok : Int}
     (h : env.tokens v = some tok) : 0 ≤ tok := by
   unfold StakeEnv.tokens at h
@@ -404,81 +413,246 @@ theorem find_tokens_nonneg {env : StakeEnv} (he : envValid env = true) {v : Stri
     simp at this
     omega
 
-/-- clauses 2 and 3 on one message -/
-theorem validateBody_sound {cfg : ComCfg} {env : StakeEnv} (hcap : (100 : Int) ∣ cfg.maxVotingPower)
-    (he : envValid env = true) {b : Body} (hb : bodyAmountsValid b = true)
-    (h : validateBody cfg env b = .ok true) : bodyOK cfg.minCommission cfg.maxVotingPower env b = true := by
+/-! ### pending stake -/
+
+theorem get_add (p : Pending) (v w : String) (a t : Int) :
+    (p.add v a t).get w = (if v = w then a else 0) + p.get w := by
+  unfold Pending.add Pending.get
+  simp only [List.filter_cons]
+  by_cases h : v = w
+  · simp [h]
+  · simp [h]
+
+theorem total_add (p : Pending) (v : String) (a t : Int) : (p.add v a t).total = p.total + t := rfl
+
+theorem get_nonneg_aux : ∀ (l : List (String × Int)) (v : String), (∀ e ∈ l, 0 ≤ e.2) →
+    0 ≤ ((l.filter (fun e => e.1 = v)).map (·.2)).sum
+  | [], _, _ => by simp
+  | e :: l, v, h => by
+    have ih := get_nonneg_aux l v (fun e' he' => h e' (by simp [he']))
+    have he := h e (by simp)
+    simp only [List.filter_cons]
+    split
+    · simp only [List.map_cons, List.sum_cons]; omega
+    · exact ih
+
+/-- the pending stake holds only non-negative additions -/
+def Pending.valid (p : Pending) : Prop := (∀ e ∈ p.byVal, 0 ≤ e.2) ∧ 0 ≤ p.total
+
+theorem Pending.valid.get_nonneg {p : Pending} (h : p.valid) (v : String) : 0 ≤ p.get v :=
+  get_nonneg_aux p.byVal v h.1
+
+theorem valid_add {p : Pending} (h : p.valid) (v : String) {a t : Int} (ha : 0 ≤ a) (ht : 0 ≤ t) : (p.add v a t).valid := by
+  refine ⟨?_, ?_⟩
+  · intro e he
+    simp only [Pending.add, List.mem_cons] at he
+    rcases he with rfl | he
+    · exact ha
+    · exact h.1 e he
+  · simp only [Pending.add]; have := h.2; omega
+
+theorem valid_empty : Pending.empty.valid := ⟨by simp [Pending.empty], by simp [Pending.empty]⟩
+
+/-- what `projectedPower` accepting means, exactly -/
+theorem projectedPower_sound {cfg : ComCfg} (hcap : (100 : Int) ∣ cfg.maxVotingPower) {tok total vAmt tAmt : Int}
+    (h0 : 0 ≤ tok + vAmt) (h1 : 0 ≤ total + tAmt)
+    (h : belowCap cfg (projectedPower tok total vAmt tAmt) = .ok true) :
+    shareBelow cfg.maxVotingPower (tok + vAmt) (total + tAmt) = true := by
+  obtain ⟨d, hp, hd⟩ := belowCap_ok h
+  unfold projectedPower at hp
+  obtain ⟨t', ht', hp⟩ := bind_ok hp
+  obtain ⟨v', hv', hp⟩ := bind_ok hp
+  rw [ofInt_add_ok ht', ofInt_add_ok hv'] at hp
+  have := projected_lt_cap h0 h1 hcap hp hd
+  simp [shareBelow, this]
+
+/-- one message: the model's acceptance gives the exact statements of the specification and the
+    same pending stake -/
+theorem validateBody_sound {cfg : ComCfg} {env : StakeEnv} (hcum : cfg.cumulative = true) (hcap : (100 : Int) ∣ cfg.maxVotingPower)
+    (he : envValid env = true) {p q : Pending} (hp : p.valid) {b : Body} (hb : bodyAmountsValid b = true)
+    (h : validateBody cfg env p b = .ok (some q)) :
+    commissionOK cfg.minCommission b = true ∧ capOK cfg.maxVotingPower env p b = true ∧
+      q = stepPending env p b ∧ q.valid := by
   have htot : 0 ≤ env.total := by
     unfold envValid at he; simp only [Bool.and_eq_true, decide_eq_true_eq] at he; exact he.1
+  have hview : cfg.view p = p := by simp [ComCfg.view, hcum]
   cases b with
-  | other => rfl
+  | other => simp [validateBody] at h; subst h; exact ⟨rfl, rfl, rfl, hp⟩
   | createVal r =>
-    simp [validateBody] at h
-    simp [bodyOK]; omega
+    simp only [validateBody] at h
+    split at h
+    · cases h
+    · simp at h; subst h
+      refine ⟨?_, rfl, rfl, hp⟩
+      simp [commissionOK]; omega
   | editVal r =>
     cases r with
-    | none => rfl
+    | none => simp [validateBody] at h; subst h; exact ⟨rfl, rfl, rfl, hp⟩
     | some r =>
-      simp [validateBody] at h
-      simp [bodyOK]; omega
+      simp only [validateBody] at h
+      split at h
+      · cases h
+      · simp at h; subst h
+        refine ⟨?_, rfl, rfl, hp⟩
+        simp [commissionOK]; omega
   | delegate v amt =>
     simp only [bodyAmountsValid, decide_eq_true_eq] at hb
-    simp only [validateBody] at h
-    simp only [bodyOK]
+    simp only [validateBody, hview] at h
+    simp only [capOK, stepPending, commissionOK]
     cases ht : env.tokens v with
-    | none => rfl
+    | none => simp [ht] at h
     | some tok =>
       simp only [ht] at h ⊢
       have htok := find_tokens_nonneg he ht
-      obtain ⟨d, hp, hd⟩ := belowCap_ok h
-      unfold projDelegate at hp
-      obtain ⟨t', ht', hp⟩ := bind_ok hp
-      obtain ⟨v', hv', hp⟩ := bind_ok hp
-      rw [ofInt_add_ok ht', ofInt_add_ok hv'] at hp
-      have := projected_lt_cap (by omega) (by omega) hcap hp hd
-      simp [shareBelow, this]
+      obtain ⟨hok, rfl⟩ := admitIf_some h
+      have hg := hp.get_nonneg v
+      have ht2 := hp.2
+      refine ⟨trivial, projectedPower_sound hcap (by omega) (by omega) hok, rfl, valid_add hp v hb hb⟩
   | redelegate src dst amt =>
     simp only [bodyAmountsValid, decide_eq_true_eq] at hb
-    simp only [validateBody] at h
-    simp only [bodyOK]
+    simp only [validateBody, hview] at h
+    simp only [capOK, stepPending, commissionOK]
     cases ht : env.tokens dst with
-    | none => rfl
+    | none => simp [ht] at h
     | some tok =>
       simp only [ht] at h ⊢
       have htok := find_tokens_nonneg he ht
-      obtain ⟨d, hp, hd⟩ := belowCap_ok h
-      unfold projRedelegate at hp
-      obtain ⟨v', hv', hp⟩ := bind_ok hp
-      rw [ofInt_add_ok hv'] at hp
+      obtain ⟨hok, rfl⟩ := admitIf_some h
+      have hg := hp.get_nonneg dst
+      have ht2 := hp.2
       have hamt : 0 ≤ (if src = dst then (0 : Int) else amt) := by split <;> omega
-      have := projected_lt_cap (t := env.total) (by omega) htot hcap hp hd
-      simp [shareBelow, this]
+      refine ⟨trivial, projectedPower_sound hcap (by omega) (by omega) hok, rfl, valid_add hp dst hamt (le_refl 0)⟩
 
-theorem validateAll_sound {cfg : ComCfg} {env : StakeEnv} : ∀ (ls : List Leaf),
-    validateAll cfg env ls = .ok true → ∀ l ∈ ls, validateBody cfg env l.body = .ok true
-  | [], _, l, hl => by simp at hl
-  | l' :: ls, h, l, hl => by
+theorem validateAll_sound {cfg : ComCfg} {env : StakeEnv} (hcum : cfg.cumulative = true) (hcap : (100 : Int) ∣ cfg.maxVotingPower)
+    (he : envValid env = true) : ∀ (ls : List Leaf) (p q : Pending), p.valid →
+    (∀ l ∈ ls, bodyAmountsValid l.body = true) → validateAll cfg env p ls = .ok (some q) →
+    (∀ l ∈ ls, commissionOK cfg.minCommission l.body = true) ∧ seqCapOK cfg.maxVotingPower env p ls = true ∧
+      q = finalPending env p ls
+  | [], p, q, _, _, h => by
+    simp [validateAll] at h; subst h
+    exact ⟨by simp, rfl, rfl⟩
+  | l :: ls, p, q, hp, hb, h => by
     unfold validateAll at h
-    cases hv : validateBody cfg env l'.body with
+    cases hv : validateBody cfg env p l.body with
     | error e => simp [hv] at h
-    | ok b =>
-      cases b with
-      | false => simp [hv] at h
-      | true =>
-        simp [hv] at h
-        rcases List.mem_cons.mp hl with rfl | hl'
-        · exact hv
-        · exact validateAll_sound ls h l hl'
+    | ok o =>
+      cases o with
+      | none => simp [hv] at h
+      | some p' =>
+        simp only [hv] at h
+        obtain ⟨hc, hk, hq, hval⟩ := validateBody_sound hcum hcap he hp (hb l (by simp)) hv
+        obtain ⟨ih1, ih2, ih3⟩ := validateAll_sound hcum hcap he ls p' q hval (fun l' hl' => hb l' (by simp [hl'])) h
+        refine ⟨?_, ?_, ?_⟩
+        · intro l' hl'
+          rcases List.mem_cons.mp hl' with rfl | hl''
+          · exact hc
+          · exact ih1 l' hl''
+        · simp only [seqCapOK, hk, Bool.true_and, ← hq]; exact ih2
+        · simp only [finalPending, ← hq]; exact ih3
+
+/-! ### the end of the transaction: nobody who received stake holds the cap or more -/
+
+theorem shareBelow_mono {cap v t t' : Int} (hc : 0 ≤ cap) (ht : t ≤ t') (h : shareBelow cap v t = true) :
+    shareBelow cap v t' = true := by
+  simp only [shareBelow, decide_eq_true_eq] at h ⊢
+  have : cap * t ≤ cap * t' := Int.mul_le_mul_of_nonneg_left ht hc
+  omega
+
+theorem stepPending_valid {env : StakeEnv} {p : Pending} (hp : p.valid) {b : Body} (hb : bodyAmountsValid b = true) :
+    (stepPending env p b).valid := by
+  cases b with
+  | delegate v amt =>
+    simp only [bodyAmountsValid, decide_eq_true_eq] at hb
+    simp only [stepPending]; split
+    · exact hp
+    · exact valid_add hp v hb hb
+  | redelegate src dst amt =>
+    simp only [bodyAmountsValid, decide_eq_true_eq] at hb
+    have hamt : 0 ≤ (if src = dst then (0 : Int) else amt) := by split <;> omega
+    simp only [stepPending]; split
+    · exact hp
+    · exact valid_add hp dst hamt (le_refl 0)
+  | _ => exact hp
+
+/-- one step keeps `endOK`: the message's own check covers its target, and a growing total only
+    lowers everybody else's share -/
+theorem endOK_step {cap : Int} (hc : 0 ≤ cap) {env : StakeEnv} {p : Pending} (hp : p.valid)
+    {b : Body} (hb : bodyAmountsValid b = true) (hend : endOK cap env p = true)
+    (hk : capOK cap env p b = true) : endOK cap env (stepPending env p b) = true := by
+  have key : ∀ (v : String) (a t : Int) (tok : Int), env.tokens v = some tok → 0 ≤ t →
+      shareBelow cap (tok + (p.get v + a)) (env.total + (p.total + t)) = true →
+      endOK cap env (p.add v a t) = true := by
+    intro v a t tok hv ht hs
+    unfold endOK
+    rw [List.all_eq_true]
+    intro e hem
+    have hcase : e.1 = v ∨ e ∈ p.byVal := by
+      simp only [Pending.add, List.mem_cons] at hem
+      rcases hem with rfl | h'
+      · exact Or.inl rfl
+      · exact Or.inr h'
+    by_cases hev : e.1 = v
+    · rw [hev, hv]
+      simp only [get_add, total_add, if_true]
+      have : tok + (a + p.get v) = tok + (p.get v + a) := by omega
+      rw [this]; exact hs
+    · rcases hcase with h1 | h2
+      · exact absurd h1 hev
+      · have := (List.all_eq_true.mp hend) e h2
+        cases hte : env.tokens e.1 with
+        | none => rfl
+        | some tok' =>
+          simp only [hte] at this ⊢
+          simp only [get_add, total_add, if_neg (Ne.symm hev), Int.zero_add]
+          exact shareBelow_mono hc (by omega) this
+  cases b with
+  | delegate v amt =>
+    simp only [bodyAmountsValid, decide_eq_true_eq] at hb
+    simp only [capOK, stepPending] at hk ⊢
+    cases ht : env.tokens v with
+    | none => simpa [ht] using hend
+    | some tok => simp only [ht] at hk ⊢; exact key v amt amt tok ht hb hk
+  | redelegate src dst amt =>
+    simp only [capOK, stepPending] at hk ⊢
+    cases ht : env.tokens dst with
+    | none => simpa [ht] using hend
+    | some tok =>
+      simp only [ht] at hk ⊢
+      exact key dst _ 0 tok ht (le_refl 0) (by simpa using hk)
+  | other => exact hend
+  | createVal r => exact hend
+  | editVal r => exact hend
+
+theorem endOK_final {cap : Int} (hc : 0 ≤ cap) {env : StakeEnv} : ∀ (ls : List Leaf) (p : Pending), p.valid →
+    (∀ l ∈ ls, bodyAmountsValid l.body = true) → endOK cap env p = true → seqCapOK cap env p ls = true →
+    endOK cap env (finalPending env p ls) = true
+  | [], _, _, _, hend, _ => hend
+  | l :: ls, p, hp, hb, hend, hs => by
+    simp only [seqCapOK, Bool.and_eq_true] at hs
+    simp only [finalPending]
+    have hbl := hb l (by simp)
+    exact endOK_final hc ls _ (stepPending_valid hp hbl) (fun l' hl' => hb l' (by simp [hl']))
+      (endOK_step hc hp hbl hend hs.1) hs.2
 
 /-- clauses 2 and 3, for any configuration that unwraps MsgExec -/
-theorem staking_generic {cfg : ComCfg} (hu : cfg.unwrap = true) (hcap : (100 : Int) ∣ cfg.maxVotingPower)
+theorem staking_generic {cfg : ComCfg} (hu : cfg.unwrap = true) (hcum : cfg.cumulative = true) (hcap : (100 : Int) ∣ cfg.maxVotingPower)
+    (hc0 : 0 ≤ cfg.maxVotingPower)
     (env : StakeEnv) (ms : List Msg) (he : envValid env = true) (ha : amountsValid ms = true)
     (h : comDecide cfg env ms = .ok true) :
-    ∀ l ∈ leavesList ms, bodyOK cfg.minCommission cfg.maxVotingPower env l.body = true := by
-  intro l hl
-  unfold comDecide comMsgs at h
+    stakingOK true cfg.minCommission cfg.maxVotingPower env ms = true := by
+  unfold comDecide comRun comMsgs at h
   rw [if_pos hu] at h
-  have hb : bodyAmountsValid l.body = true := (List.all_eq_true.mp ha) l hl
-  exact validateBody_sound hcap he hb (validateAll_sound _ h l hl)
+  have hb : ∀ l ∈ leavesList ms, bodyAmountsValid l.body = true := List.all_eq_true.mp ha
+  cases hr : validateAll cfg env Pending.empty (leavesList ms) with
+  | error e => simp [hr, Except.map] at h
+  | ok o =>
+    cases o with
+    | none => simp [hr, Except.map] at h
+    | some q =>
+      obtain ⟨h1, h2, h3⟩ := validateAll_sound hcum hcap he _ _ q valid_empty hb hr
+      have hend0 : endOK cfg.maxVotingPower env Pending.empty = true := by simp [endOK, Pending.empty]
+      have h4 := endOK_final hc0 _ _ valid_empty hb hend0 h2
+      simp only [stakingOK, Bool.not_true, Bool.false_or, Bool.and_eq_true]
+      exact ⟨⟨List.all_eq_true.mpr h1, h2⟩, h4⟩
 
 end Sif.Ante
